@@ -1284,12 +1284,12 @@ def body_pair(data) -> Outcome:
     if rel == "equal":
         if not eq:
             po = _first(feats, "partial-order:")
-            if po:
-                bucket = "equal-values-unequal-keys:partially-ordered-keys:" + po.split(":")[1]
-            elif "plain-object" in feats and "/in-obj" in target:
+            if "plain-object" in feats and "/in-obj" in target:
                 # not judged: for the pickle fallback only "same construction => same key" is meaningful
                 out.labels.append("pickle-fallback-variant-differs:" + _fallback_cause(op))
                 return out
+            if po:
+                bucket = "equal-values-unequal-keys:partially-ordered-keys:" + po.split(":")[1]
             else:
                 bucket = "equal-values-unequal-keys:" + where
             out.fail(bucket, f"a={va!r} b={vb!r} ka={ka!r} kb={kb!r}")
